@@ -3,3 +3,27 @@ From TV Require Export Levels.Syntax.
 
 (** The string test `LogTracer::enabled` applies between a record's target and an ignore-list entry. *)
 Inductive strtest := MStartsWith | MContains | MEndsWith | MEq.
+
+(** * The three process-global atomics of tracing-core/src/dispatch.rs that decide `has_been_set()` *)
+Inductive atom := AExists | AGlobalInit | AScopedCount.
+(** One shared-memory action of `State::set_default`, `Drop for DefaultGuard` or `set_global_default`, in source
+    order.  [ActCas a old new]: `a.compare_exchange(old, new, ..).is_ok()` guards the rest of the function (on failure the
+    function returns without doing anything else).  [ActLocal]: an access that touches none of the three atomics
+    (the thread-local `CURRENT_STATE`, the `GLOBAL_DISPATCH` write). *)
+Inductive action :=
+| ActStore (a : atom) (v : N)
+| ActFetchAdd (a : atom) (d : N)
+| ActFetchSub (a : atom) (d : N)
+| ActCas (a : atom) (old new : N)
+| ActLocal.
+(** The body of `dispatch::has_been_set()` as an expression over the atomics (`X.load(_)` is [HLoad X], a bool
+    for EXISTS; comparisons of a `usize` atomic with a constant; `||`, `&&`, `!`). *)
+Inductive hexpr :=
+| HLoad (a : atom)
+| HNe (a : atom) (n : N)
+| HEq (a : atom) (n : N)
+| HOr (x y : hexpr)
+| HAnd (x y : hexpr)
+| HNot (x : hexpr).
+(** The three functions that install / uninstall a default collector. *)
+Inductive dfn := FSetDefault | FGuardDrop | FSetGlobal.
